@@ -45,6 +45,32 @@ PMAT = {0: np.eye(2, dtype=complex), 1: np.array([[1, 0], [0, -1]], dtype=comple
 TOL = 1e-9
 
 
+MISSING = "?model-unavailable"
+
+
+def ceval(ck, name, exprs, shard=300):
+    """ck.coq_eval that never aborts the check: when the model cannot be evaluated (broken generated table, broken
+    theory) the stream is reported once (no failing input) and the implementation-only oracles go on."""
+    try:
+        return ck.coq_eval(name, PREAMBLE, exprs, shard=shard)
+    except Exception as e:
+        ck.violation("C14/model-eval/%s" % name, "the Coq model could not be evaluated for stream %s: %s" % (name, str(e)[-600:]),
+                     {"kind": "model-eval", "stream": name, "error": str(e)[-3000:]}, found_input=False)
+        return [MISSING] * len(exprs)
+
+
+def safe(ck, name, fn, *args):
+    """Run one stream; a crash inside it is reported and does not stop the other streams."""
+    import traceback
+    try:
+        return fn(ck, *args)
+    except Exception:
+        tb = traceback.format_exc()
+        ck.violation("C14/harness-crash/%s" % name, "stream %s could not complete: %s" % (name, tb.splitlines()[-1]),
+                     {"kind": "crash", "stream": name, "traceback": tb}, found_input=False)
+        return None
+
+
 # ------------------------------------------------------------------------------------------ helpers
 def codes_to_term(codes):
     return tuple((q, PAULI[c]) for q, c in enumerate(codes) if c)
@@ -340,12 +366,12 @@ def stream_echelon(ck, n_cases):
         cases.append((nr, cols))
         impl.append(out)
         exprs.append("run_echelon %s %s" % (coq_nat(nr), coq_list([coq_str(c) for c in cols])))
-    model = ck.coq_eval("echelon", PREAMBLE, exprs)
+    model = ceval(ck, "echelon", exprs)
     for (nr, cols), a, b in zip(cases, impl, model):
         ck.case("gf2-echelon", json.dumps([nr, cols]), nontrivial=(a != "|".join(cols)),
                 sample={"nrows": nr, "columns": cols, "impl": a, "model": b},
                 tags=["err" if a.startswith("Err") else "ok", "cols=%d" % len(cols)])
-        if a != b:
+        if a != b and b != MISSING:
             ck.violation("C14/correspondence/bool_col_echelon", "bool_col_echelon differs from the model on nrows=%d "
                          "columns=%s: impl=%s model=%s" % (nr, cols, a, b),
                          {"kind": "echelon", "nrows": nr, "columns": cols, "impl": a, "model": b}, found_input=False)
@@ -380,13 +406,13 @@ def stream_kernel(ck, n_cases):
         cases.append((n, rows, kern, karr))
         impl_k.append(out)
         k_exprs.append("run_kernel %s %s" % (coq_nat(n), coq_list([coq_str(b) for b in binrows])))
-    model_k = ck.coq_eval("kernel", PREAMBLE, k_exprs)
+    model_k = ceval(ck, "kernel", k_exprs)
     c_exprs, c_impl, c_idx = [], [], []
     for i, ((n, rows, kern, karr), a, b) in enumerate(zip(cases, impl_k, model_k)):
         ck.case("gf2-kernel", json.dumps([n, rows]), nontrivial=kern is not None,
                 sample={"n": n, "rows": [codes_str(r) for r in rows], "impl_kernel": a, "model_kernel": b},
                 tags=["kernel-dim=%s" % (len(kern) if kern is not None else a), "n=%d" % n])
-        if a != b:
+        if a != b and b != MISSING:
             ck.violation("C14/correspondence/get_kernel", "get_kernel differs from the model: n=%d rows=%s impl=%s model=%s"
                          % (n, [codes_str(r) for r in rows], a, b),
                          {"kind": "kernel", "n": n, "rows": rows, "impl": a, "model": b}, found_input=False)
@@ -408,10 +434,10 @@ def stream_kernel(ck, n_cases):
         c_idx.append(i)
         c_impl.append((got, triples))
         c_exprs.append("run_cliffords %s %s" % (coq_nat(n), coq_list([coq_str(codes_str(r)) for r in kern])))
-    model_c = ck.coq_eval("cliffords", PREAMBLE, c_exprs)
+    model_c = ceval(ck, "cliffords", c_exprs)
     for i, (got, triples), b in zip(c_idx, c_impl, model_c):
         n, rows, kern, _ = cases[i]
-        if got != b:
+        if got != b and b != MISSING:
             ck.violation("C14/correspondence/get_clifford_operators", "get_clifford_operators differs from the model on "
                          "kernel %s: impl=%s model=%s" % ([codes_str(r) for r in kern], got, b),
                          {"kind": "cliffords", "n": n, "kernel": kern, "impl": got, "model": b}, found_input=False)
@@ -592,7 +618,7 @@ def stream_pipeline(ck, n_cases):
                                      [(codes_str(r), c) for r, c in rows2], fmt_dict(d2), fmt_dict(d3)),
                                  {"kind": "taper_noncommuting", "n": n, "rows": replay["rows"], "n_electrons": ne,
                                   "rows2": [[list(r), [c.real, c.imag]] for r, c in rows2]})
-    model = ck.coq_eval("pipeline", PREAMBLE, exprs, shard=25)
+    model = ceval(ck, "pipeline", exprs, shard=25)
     for (n, rows, psi, replay), res, m in zip(cases, impls, model):
         removed = 0 if "err" in res else len(res["q"])
         ck.case("taper-pipeline", json.dumps(replay["rows"]), nontrivial=removed > 0,
@@ -600,6 +626,8 @@ def stream_pipeline(ck, n_cases):
                         {"kernel": [codes_str(k) for k in res["kernel"]], "q": res["q"], "tapered_terms": len(res["T"])},
                         "model": m[:300]},
                 tags=["removed=%d" % removed if "err" not in res else res["err"], "n=%d" % n])
+        if m == MISSING:
+            continue
         if "err" in res:
             if not (m.startswith("Err:") and m == res["err"]):
                 ck.violation("C14/correspondence/QubitTapering-error", "implementation raised %s (%s), model gives %s" % (
@@ -627,10 +655,12 @@ def stream_pipeline(ck, n_cases):
                          "tapering pipeline differs from the model in %s: impl K=%s Q=%s E=%s T=%s ; model %s" % (
                              diffs, [codes_str(k) for k in res["kernel"]], res["q"], bits_str(res["signs"]),
                              fmt_dict(res["T"]), m[:600]), dict(replay, model=m[:2000]), found_input=False)
-    model2 = ck.coq_eval("taper_other", PREAMBLE, o_exprs, shard=25)
+    model2 = ceval(ck, "taper_other", o_exprs, shard=25)
     for (n, rows, psi, rows2, res), d2, m in zip(o_cases, o_impls, model2):
         ck.case("taper-pipeline", json.dumps(["other", [(codes_str(r), c.real) for r, c in rows], [(codes_str(r), c.real) for r, c in rows2]]),
                 nontrivial=True, tags=["z2_tapering(other)"])
+        if m == MISSING:
+            continue
         if isinstance(d2, str) or m.startswith("Err"):
             if not (isinstance(d2, str) and m == d2):
                 ck.violation("C14/correspondence/z2_tapering-error", "z2_tapering: impl %s, model %s" % (d2, m[:200]),
@@ -770,8 +800,8 @@ def gen_trim_circuit(rng):
     return specs, nq, roles
 
 
-def np_gate(name, k):
-    th = None if k is None else LC.theta(k)
+def np_gate(name, th):
+    """One-qubit matrices; th is the angle in radians (None for fixed gates)."""
     if name == "H":
         return np.array([[1, 1], [1, -1]], dtype=complex) / math.sqrt(2)
     if name == "X":
@@ -796,7 +826,7 @@ def np_gate(name, k):
 
 
 def np_simulate(gates, n):
-    """Independent statevector simulation; qubit q is bit q of the index."""
+    """Independent statevector simulation; qubit q is bit q of the index; parameters are used as the floats they are."""
     psi = np.zeros(2 ** n, dtype=complex)
     psi[0] = 1
     idx = np.arange(2 ** n)
@@ -804,8 +834,8 @@ def np_simulate(gates, n):
         name, t = g.name, g.target[0]
         ctrl = list(g.control) if g.control else []
         base = {"CNOT": "X", "CX": "X", "CZ": "Z", "CY": "Y"}.get(name, name)
-        k = None if isinstance(g.parameter, str) else LC.to_units(g.parameter)
-        u = np_gate(base, k)
+        th = None if isinstance(g.parameter, str) else float(g.parameter)
+        u = np_gate(base, th)
         mask = np.ones(2 ** n, dtype=bool)
         for c in ctrl:
             mask &= ((idx >> c) & 1).astype(bool)
@@ -921,23 +951,121 @@ def stream_trim(ck, n_cases):
                     coq_bool(reindex), coq_list(["(%s, %s)" % (coq_nat(q), coq_bool(b)) for q, b in ts.items()]), coq_nat(width),
                     coq_list(["(%s, (%s, %s))" % (coq_word(t), coq_Z(int(Fraction(complex(c).real) * 16)),
                                                   coq_Z(int(Fraction(complex(c).imag) * 16))) for t, c in op.terms.items()])))
-    model = ck.coq_eval("trimc", PREAMBLE, c_exprs, shard=60)
+    model = ceval(ck, "trimc", c_exprs, shard=60)
     for (specs, nq, roles, ts), a, b in zip(cases, c_impl, model):
         ck.case("trim", json.dumps([specs, nq]), nontrivial=bool(ts),
                 sample={"gates": " ".join("%s%s(%s)" % (s["name"], s["target"], s["k"]) for s in specs), "n_qubits": nq,
                         "impl": a, "model": b},
                 tags=sorted(set(roles.values())) + ["trimmed=%d" % (len(ts) if ts is not None else -1)])
-        if a != b:
+        if a != b and b != MISSING:
             ck.violation("C14/correspondence/trim_trivial_circuit", "trim_trivial_circuit differs from the model: impl=%s model=%s"
                          % (a, b), {"kind": "trim", "gates": specs, "n_qubits": nq, "impl": a, "model": b}, found_input=False)
-    model = ck.coq_eval("trimo", PREAMBLE, o_exprs, shard=120)
+    model = ceval(ck, "trimo", o_exprs, shard=120)
     for (replay, ts, reindex), a, b in zip(o_cases, o_impl, model):
         ck.case("trim", json.dumps([replay["op"], sorted(ts.items()), reindex]), nontrivial=bool(ts), tags=["operator-surgery"])
+        if b == MISSING:
+            continue
         mb = b if b.startswith("Err") else parse_trim_model(b)
         if a != mb:
             ck.violation("C14/correspondence/trim_trivial_operator", "trim_trivial_operator(reindex=%s, states=%s) differs from "
                          "the model: impl=%s model=%s" % (reindex, ts, a, b), dict(replay, states=sorted(ts.items()), reindex=reindex),
                          found_input=False)
+
+
+FLOAT_DELTAS = [0.5e-5, 2e-5, 10e-5, 100e-5, 1000e-5, 5000e-5]
+FLOAT_PATTERNS = ["RX", "RY", "RZ,RX", "RX,X", "X,RX", "RX,RX", "RX,RZ"]
+
+
+def float_trim_case(rng, pattern, k, delta, sign):
+    """3 qubits: a probe qubit carrying `pattern` with the rotation at k*pi + sign*delta, the other two either
+    entangled (H, CNOT) or H / idle; an operator with X, Y and Z on the probe qubit."""
+    from tangelo.linq import Gate, Circuit
+    from tangelo.toolboxes.operators import QubitOperator
+    theta = k * math.pi + sign * delta
+    p = rng.randrange(3)
+    others = [q for q in range(3) if q != p]
+    probe = []
+    for name in pattern.split(","):
+        if name in ("RX", "RY"):
+            probe.append(Gate(name, p, parameter=theta if not any(g.name == name for g in probe) else math.pi))
+        elif name == "RZ":
+            probe.append(Gate("RZ", p, parameter=rng.choice([0.3, 1.1, -2.0])))
+        else:
+            probe.append(Gate(name, p))
+    if rng.random() < 0.5:
+        rest = [Gate("H", others[0]), Gate("CNOT", others[1], control=others[0])]
+    else:
+        rest = [Gate("H", others[0])] + ([Gate("RY", others[1], parameter=0.7), Gate("T", others[1]), Gate("H", others[1])]
+                                         if rng.random() < 0.5 else [])
+    gates = []
+    a, b = list(probe), list(rest)
+    while a or b:
+        src = a if (a and (not b or rng.random() < 0.5)) else b
+        gates.append(src.pop(0))
+    circ = Circuit(gates, n_qubits=3)
+    op = QubitOperator()
+    terms = [[(p, "X")], [(p, "Y")], [(p, "Z")], [(p, "X"), (others[0], "X")], [(p, "Y"), (others[0], "Z")], [(others[0], "X")], []]
+    for t in terms:
+        if t in (terms[0], terms[1]) or rng.random() < 0.6:
+            op += QubitOperator(tuple(sorted(t)), rng.choice([1.0, -1.5, 0.75, 2.0]))
+    return circ, op, p, theta
+
+
+def stream_trim_float(ck, repeats, atol):
+    from tangelo.toolboxes.operators.trim_trivial_qubits import trim_trivial_circuit, trim_trivial_qubits
+    ck.stream("trim-float", "trim_trivial_qubits at the documented tolerance boundary of is_bitflip_gate (atol = %g, regenerated): "
+              "probe qubit with RX / RY / RZ,RX / RX,X / X,RX / RX,RX / RX,RZ, rotation angle k*pi +- delta for k in {1,-1,3} and "
+              "delta in {0.5,2,10,100,1000,5000}e-5 on both sides, operators with X, Y, Z on the probe qubit; implementation-only "
+              "oracle (own numpy simulation): a qubit whose rotation is farther than atol from an odd multiple of pi must not be "
+              "removed; expectation before/after within 1e-7 (outside the window) or within the window bound 2*atol*sum|c| "
+              "(inside); non-trivial = the probe qubit was removed or delta > atol" % atol)
+    for _ in range(repeats):
+        for pattern in FLOAT_PATTERNS:
+            for k in (1, -1, 3):
+                for delta in FLOAT_DELTAS:
+                    for sign in (1, -1):
+                        circ, op, p, theta = float_trim_case(ck.rng, pattern, k, delta, sign)
+                        replay = {"kind": "trim_float", "pattern": pattern, "k": k, "delta": delta, "sign": sign,
+                                  "gates": [[g.name, list(g.target), list(g.control) if g.control else None,
+                                             None if isinstance(g.parameter, str) else float(g.parameter)] for g in circ._gates],
+                                  "op": [[list(t), [complex(c).real, complex(c).imag]] for t, c in op.terms.items()], "probe": p}
+                        out = eval_trim_float(circ, op, p, delta, atol)
+                        ck.case("trim-float", json.dumps([pattern, k, delta, sign, replay["gates"], replay["op"]]),
+                                nontrivial=out["removed"] or delta > atol,
+                                sample={"pattern": pattern, "theta": theta, "removed_probe": out["removed"], "deviation": out["dev"]},
+                                tags=[pattern, "delta=%g" % delta, "removed" if out["removed"] else "kept"])
+                        for sig, desc in out["violations"]:
+                            ck.violation(sig, desc, replay)
+
+
+def eval_trim_float(circ, op, p, delta, atol):
+    from tangelo.toolboxes.operators.trim_trivial_qubits import trim_trivial_circuit, trim_trivial_qubits
+    out = {"removed": False, "dev": None, "violations": []}
+    gs = " ".join("%s(%s%s)" % (g.name, g.target[0], "" if isinstance(g.parameter, str) else ", %.10f" % g.parameter) for g in circ._gates)
+    try:
+        _, ts = trim_trivial_circuit(circ)
+        top, tc = trim_trivial_qubits(op, circ)
+    except Exception as e:
+        out["violations"].append(("C14/trim_trivial_qubits/raises", "trim_trivial_qubits raised %r on %s" % (e, gs)))
+        return out
+    out["removed"] = p in ts
+    n = circ.width
+    e_before = np_expect(op, np_simulate(list(circ), n), n)
+    e_after = np_expect(top, np_simulate(list(tc), tc.width), tc.width) if top.terms else 0.0
+    dev = abs(e_before - e_after)
+    out["dev"] = dev
+    outside = delta > atol * (1 + 1e-6)
+    if out["removed"] and outside:
+        out["violations"].append(("C14/trim_trivial_circuit/qubit-removed-outside-angle-window",
+                                  "qubit %d carries a rotation %.3g rad away from an odd multiple of pi (documented window: atol = %g) "
+                                  "but is recorded as the fixed basis state %s and removed; circuit %s; expectation value of %s "
+                                  "changes by %.3g" % (p, delta, atol, ts[p], gs, dict(op.terms), dev)))
+    bound = 1e-7 + (2 * atol * sum(abs(c) for c in op.terms.values()) if (out["removed"] and not outside) else 0.0)
+    if dev > bound:
+        out["violations"].append(("C14/trim_trivial_qubits/expectation-changed/float-angle",
+                                  "expectation value changes by %.3g (> %.3g) after trimming %s of circuit %s with operator %s"
+                                  % (dev, bound, ts, gs, dict(op.terms))))
+    return out
 
 
 # ------------------------------------------------------------------------------------------ compression
@@ -972,7 +1100,26 @@ def run_compress_impl(rows, eps, n):
     return kept
 
 
+def tight_compress_case(n, r, eps, extra=()):
+    """All 2^n I/Z words with the same coefficient c = r * eps / 2^n (they add up coherently on |0..0>: the sum is
+    2^n c |0..0><0..0|, operator norm = Frobenius norm = r * eps).  For 1 < r <= sqrt2 the cumulative weight
+    2^(n/2) c lies between eps / 2^(n/2) and eps / 2^((n-1)/2): a factor 2^floor(n/2) on an odd register discards
+    everything and moves the top eigenvalue by r * eps > eps, the correct factor 2^(n/2) does not."""
+    c = Fraction(r) * Fraction(eps) / 2 ** n
+    rows = [(tuple(bits), complex(float(c), 0.0)) for bits in itertools.product([0, 1], repeat=n)]
+    return rows + list(extra)
+
+
 def gen_compress_case(rng, tier):
+    if rng.random() < 0.12:
+        n = rng.choice([3, 5] if tier == "quick" else [3, 5, 7])
+        eps = Fraction(rng.choice([1, 2, 4, 8]), 8)
+        extra = []
+        for _ in range(rng.randint(0, 2)):
+            r = rand_row(rng, n, kinds=(0, 2, 3), p_id=0.3)
+            if any(r):
+                extra.append((r, complex(rng.choice([-3, 2, 5]), 0)))
+        return n, tight_compress_case(n, rng.choice([Fraction(9, 8), Fraction(5, 4), Fraction(11, 8)]), eps, dict(extra).items()), eps
     n = rng.randint(1, 6 if tier == "thorough" else 5)
     style = rng.random()
     rows = {}
@@ -1029,7 +1176,7 @@ def stream_compress(ck, n_cases):
                       for i, (r, c) in enumerate(rows)])))
         if isinstance(out, list):
             check_compress_oracle(ck, n, rows, eps, out)
-    model = ck.coq_eval("compress", PREAMBLE, exprs, shard=100)
+    model = ceval(ck, "compress", exprs, shard=100)
     x2_name = ck.notes.get("frob_exponent", "x2_floor_half")
     for (n, rows, eps), a, b in zip(cases, impl, model):
         x2 = {"x2_floor_half": 2 * (n // 2), "x2_ceil_half": 2 * ((n + 1) // 2), "x2_true_half": n}[x2_name]
@@ -1042,6 +1189,8 @@ def stream_compress(ck, n_cases):
                 sample={"n_qubits": n, "terms": [(codes_str(r), c.real, c.imag) for r, c in rows], "epsilon": str(eps),
                         "impl_kept": a, "model": b},
                 tags=["odd-n" if n % 2 else "even-n", "discarded=%s" % ("all" if disc == len(rows) else "some" if disc else "none")])
+        if b == MISSING:
+            continue
         mk = sorted(int(x) for x in b.split(" # ")[0].split(",") if x)
         if isinstance(a, str) or sorted(a) != mk:
             ck.violation("C14/correspondence/frobenius_norm_compression", "kept terms differ from the model: n=%d eps=%s terms=%s "
@@ -1051,7 +1200,7 @@ def stream_compress(ck, n_cases):
 
 
 def check_compress_oracle(ck, n, rows, eps, kept):
-    if any(abs(c.imag) > 0 for _, c in rows) or n > 6 or eps < 0:
+    if any(abs(c.imag) > 0 for _, c in rows) or n > 7 or eps < 0:
         return
     n_eff = max(n, 1)
     shift = frob_oracle(rows, n_eff, float(eps), [rows[i] for i in kept])
@@ -1070,6 +1219,14 @@ def replay_known_witnesses(ck):
     ck.notes["frobenius_odd_witness_kept_terms"] = kept
     check_compress_oracle(ck, 1, rows, Fraction(1), kept)
     ck.case("frobenius", "witness:0.6I+0.6Z", nontrivial=True, tags=["refutation-witness"])
+    # near-tight instances on odd registers (deterministic): implementation-only eigenvalue-shift oracle
+    for n in (3, 5, 7):
+        for r in (Fraction(9, 8), Fraction(5, 4), Fraction(11, 8)):
+            for eps in (Fraction(1, 2), Fraction(1)):
+                rows = tight_compress_case(n, r, eps)
+                kept = run_compress_impl(rows, float(eps), n)
+                check_compress_oracle(ck, n, rows, eps, kept)
+                ck.case("frobenius", "tight:%d:%s:%s" % (n, r, eps), nontrivial=len(kept) < len(rows), tags=["tight-odd-n"])
 
 
 DUP_H = [((2, 0, 2, 0), -0.875 + 0j), ((1, 0, 1, 0), -1.875 + 0j), ((0, 2, 0, 0), 0.25 + 0j), ((0, 0, 0, 1), 1.0 + 0j)]
@@ -1128,18 +1285,27 @@ def run(ck):
                       "coefficients on dyadic grids so that float sums, sqrt and comparisons of the implementation are exact",
                       "Weyl's inequality and ||D||_op <= ||D||_F are not formalised: the epsilon clause is proved as the "
                       "coefficient bound and searched numerically"]
+    global PREAMBLE
     try:
         ck.write_gen("GateTables", gate_tables.emit(gate_tables.extract(REPO)))
-        rt = reduction_tables.extract(REPO)
-        ck.write_gen("ReductionTables", reduction_tables.emit(rt))
-        ck.notes["frob_exponent"] = rt["frob"]["x2"]
-        ck.notes["do_taper_culls"] = rt["taper"]["cull"]
     except TranslateError as e:
-        ck.violation("C14/translator/reduction_tables", "translator no longer recognises the source: %s" % e,
+        ck.violation("C14/translator/gate_tables", "translator no longer recognises gate.py / circuit.py: %s" % e,
                      {"kind": "translator", "error": str(e)}, found_input=False)
-        return
-    res = ck.prove()
-    if not res.ok:
+        PREAMBLE = PREAMBLE.replace("From Gen Require Import GateTables ReductionTables.", "From Gen Require Import ReductionTables.")
+    rt, terrs = reduction_tables.extract_with_fallback(REPO)
+    for sec, msg in terrs.items():
+        ck.violation("C14/translator/reduction_tables/%s" % sec,
+                     "translator no longer recognises the source (%s); the check continues with the last-known-good FALLBACK "
+                     "table for this section and the implementation-only oracles" % msg,
+                     {"kind": "translator", "section": sec, "error": msg}, found_input=False)
+    ck.notes["tables_source"] = {sec: ("FALLBACK (last known good, source not recognised)" if sec in terrs else "regenerated from /repo")
+                                 for sec, _ in reduction_tables.SECTIONS}
+    ck.write_gen("ReductionTables", reduction_tables.emit(rt))
+    ck.notes["frob_exponent"] = rt["frob"]["x2"]
+    ck.notes["do_taper_culls"] = rt["taper"]["cull"]
+    ck.notes["bitflip_atol"] = rt["trim"]["atol"]
+    res = safe(ck, "prove", lambda c: c.prove())
+    if res is not None and not res.ok:
         ck.proof_violation(res)
     try:
         import tangelo.toolboxes.operators  # noqa
@@ -1148,24 +1314,25 @@ def run(ck):
         ck.violation("C14/import", "tangelo cannot be imported: %r" % e, {"kind": "import"}, found_input=False)
         return
     q = ck.tier == "quick"
-    # ---- compression (does not need the alias)
-    replay_known_witnesses(ck)
-    stream_compress(ck, 170 if q else 2200)
+    # ---- compression
+    safe(ck, "frobenius-witnesses", replay_known_witnesses)
+    safe(ck, "frobenius", stream_compress, 170 if q else 2200)
     # ---- GF(2) routines
-    stream_echelon(ck, 220 if q else 4000)
-    stream_kernel(ck, 160 if q else 2500)
-    # ---- trimming
-    stream_trim(ck, 150 if q else 2000)
-    # ---- tapering pipeline: record the NumPy defect, then look behind it
-    product_needed = probe_np_product(ck)
-    where_needed = probe_np_where(ck, product_needed)
-    ck.notes["np_where_shim_used"] = where_needed
+    safe(ck, "gf2-echelon", stream_echelon, 220 if q else 4000)
+    safe(ck, "gf2-kernel", stream_kernel, 160 if q else 2500)
+    # ---- trimming: grid angles against the model, float angles at the tolerance boundary (implementation only)
+    safe(ck, "trim", stream_trim, 150 if q else 2000)
+    safe(ck, "trim-float", stream_trim_float, 1 if q else 6, rt["trim"]["atol"])
+    # ---- tapering pipeline (the NumPy proxy is installed only if the probes still see those defects)
+    product_needed = safe(ck, "probe-np.product", probe_np_product)
+    where_needed = safe(ck, "probe-np.where", probe_np_where, bool(product_needed))
+    ck.notes["np_where_shim_used"] = bool(where_needed)
     ck.notes["numpy_proxy_active"] = bool(product_needed or where_needed)
     with shim(use_where=True, active=bool(product_needed or where_needed)):
-        probe_culling(ck)
-        probe_duplicate_index(ck)
-        stream_pipeline(ck, 40 if q else 260)
-        stream_molecules(ck)
+        safe(ck, "probe-culling", probe_culling)
+        safe(ck, "probe-duplicate-index", probe_duplicate_index)
+        safe(ck, "taper-pipeline", stream_pipeline, 40 if q else 260)
+        safe(ck, "taper-molecules", stream_molecules)
 
 
 # ------------------------------------------------------------------------------------------ replay
@@ -1188,6 +1355,18 @@ def replay(data):
             return 1
         print("no longer fails")
         return 0
+    if kind == "trim_float":
+        from tangelo.linq import Gate, Circuit
+        from tangelo.toolboxes.operators import QubitOperator
+        gates = [Gate(nm, t, control=c, parameter="" if prm is None else prm) for nm, t, c, prm in r["gates"]]
+        op = QubitOperator()
+        for t, c in r["op"]:
+            op += QubitOperator(tuple((int(q), p) for q, p in t), complex(*c))
+        out = eval_trim_float(Circuit(gates, n_qubits=3), op, r["probe"], r["delta"], 1e-5)
+        print("probe qubit removed:", out["removed"], " |expectation before - after| =", out["dev"])
+        for sig, desc in out["violations"]:
+            print("FINDING", sig, desc[:500])
+        return 1 if out["violations"] else 0
     if kind == "np_where":
         with shim(use_where=False, active=not hasattr(np, "product")):
             res = run_tapering_impl([((1, 1), 1.0 + 0j), ((2, 2), 0.5 + 0j)], 2, 0, 0, "JW", False)
